@@ -353,7 +353,8 @@ def main():
         miss.append("multirotor: some time cell never exercised")
     if set(Ms) != {(n, T) for n in (3, 7) for T in Tall}:
         miss.append("bcrows: boundary-functional matrices missing")
-    if cov.get("T", set()) != Tall or not run.counts.get("evaluations"):
+    Tsmall = {(1, 2000), (1, 4000), (1, 16), (40, 1)}      # Bezier!SmallTs (eval vectors of degree 1..2 only)
+    if cov.get("T", set()) != Tall | Tsmall or not run.counts.get("evaluations"):
         miss.append("durations / evaluations")
     if miss:
         raise MachineryError("vacuous coverage: " + "; ".join(miss))
